@@ -130,14 +130,7 @@ class _StatePointDict(JSONAttrDict):
                 os.replace(job.path, new_workspace)
             except OSError as error:
                 os.replace(tmp_statepoint_file, self.filename)  # rollback
-                # The in-memory data has already been modified, restore it too.
-                with self._suspend_sync:
-                    data = self._load_from_resource()
-                    self._update(data, _validate=False)
-                    if calc_id(self) != old_id:
-                        # _update keeps values that merely compare equal (1, 1.0, True).
-                        self._data.clear()
-                        self._update(data, _validate=False)
+                self._restore_from_file(old_id)
                 if error.errno in (errno.EEXIST, errno.ENOTEMPTY, errno.EACCES):
                     raise DestinationExistsError(new_id)
                 else:
@@ -149,6 +142,7 @@ class _StatePointDict(JSONAttrDict):
             # file move failed due to the job not being initialized so the file
             # doesn't exist, which is OK.
             if error.errno != errno.ENOENT:
+                self._restore_from_file(old_id)
                 raise
 
         # Update each job instance.
@@ -181,6 +175,18 @@ class _StatePointDict(JSONAttrDict):
             job.init()
 
         logger.info(f"Moved '{old_id}' -> '{new_id}'.")
+
+    def _restore_from_file(self, job_id):
+        """Restore the in-memory data, which has already been modified, from the file."""
+        with self._suspend_sync:
+            data = self._load_from_resource()
+            if data is None:
+                return
+            self._update(data, _validate=False)
+            if calc_id(self) != job_id:
+                # _update keeps values that merely compare equal (1, 1.0, True).
+                self._data.clear()
+                self._update(data, _validate=False)
 
     def save(self, force=False):
         """Trigger a save to disk.
